@@ -41,7 +41,8 @@
     analysed change list for tables; its column analogue and the bridge from statements to that list are covered
     by the tie only. *)
 From Coq Require Import List NArith Bool Arith.
-From Atlas Require Import Base.Bytes Lint.LintModel Lint.LintSpec Lint.LintProofs Lint.LintFileProofs Lint.LintSoundProofs Lint.LintDropProofs Lint.LintRefute.
+From Atlas Require Import Base.Bytes Lint.LintModel Lint.LintSpec Lint.LintProofs Lint.LintFileProofs Lint.LintSoundProofs Lint.LintDropProofs Lint.LintRefute
+  Lint.LintNolintModel Lint.LintNolintProofs Lint.LintNolintRefute.
 Import ListNotations.
 
 (** 1. destructive.Analyze, exactly: DS102 at [p] naming [n] iff a statement at [p] carries DropTable n
@@ -236,6 +237,131 @@ Theorem C18_sound_temp_table_partial :
 Proof. exact sound_temp_table. Qed.
 Print Assumptions C18_sound_temp_table_partial.
 
+(** ** Round 3: `atlas:nolint` directives (Lint/LintNolintModel.v: reDirective/directive, Stmt.Directive,
+    LocalFile.Directive, strings.Split, nolintRules, skipRules.reporterFor, Runner.analyze).
+
+    FULL STATEMENT C18_nolint (full): a DS102/DS103 diagnostic of a statement is withheld exactly when a nolint
+    comment written for that statement (directly above it, or in the file header) is the bare `atlas:nolint`
+    or has `destructive` or the code itself among its names; a comment naming other checks never withholds it,
+    however it is spelled.  FALSE of the code (and reproduced on the real CLI, known_findings.d/C18.json):
+    C18_nolint_refuted_tab, C18_nolint_refuted_header_mention (missed drops), C18_nolint_refuted_bare_with_other
+    (over-reporting).  A fourth cause sits in the statement scanner, which the model takes as input (a comment at
+    the end of the previous statement's line is handed to the next statement): tie + oracle only.
+    What holds, for all inputs, is stated on the rule list that nolintRules builds. *)
+
+(* the rule list silences code c iff it is the bare list [""] or has c's code or c's class among its elements
+   (exact code only: reporterFor uses slices.Contains(rules, d.Code); a prefix such as DS1 silences nothing) *)
+Theorem C18_nolint_silences_iff :
+  forall rules c,
+    silences rules c = true <-> rules = [[]] \/ In (code_str c) rules \/ In az_name rules.
+Proof. exact silences_iff. Qed.
+Print Assumptions C18_nolint_silences_iff.
+
+(* strings.Split(d, " "): never empty, joins back to d, no element holds a blank, and it is [""] only for d = "" *)
+Theorem C18_nolint_split_spec :
+  forall d,
+    split_sp d <> [] /\ join_sp (split_sp d) = d /\ (forall w, In w (split_sp d) -> ~ In 32%N w)
+    /\ (split_sp d = [[]] <-> d = []) /\ (~ In 32%N d -> split_sp d = [d]).
+Proof.
+  intros d. repeat split.
+  - apply split_sp_nonempty.
+  - apply split_sp_join.
+  - apply split_sp_no_blank.
+  - apply split_sp_bare.
+  - intros ->. reflexivity.
+  - apply split_sp_word.
+Qed.
+Print Assumptions C18_nolint_split_spec.
+
+(* ... and it inverts joining: names written one blank apart are exactly the rule elements; a further blank
+   anywhere adds an empty element (Split is compositional over every blank) *)
+Theorem C18_nolint_split_words :
+  (forall ws, ws <> [] -> (forall w, In w ws -> ~ In 32%N w) -> split_sp (join_sp ws) = ws)
+  /\ (forall a b0, split_sp (a ++ 32%N :: b0) = split_sp a ++ split_sp b0).
+Proof. split; [exact split_sp_join_words | exact split_sp_app]. Qed.
+Print Assumptions C18_nolint_split_words.
+
+(* what an empty element (surplus blank: leading, trailing, doubled) means: it silences nothing by itself,
+   and a list holding it next to anything else is not the bare form -- only the names in it count *)
+Theorem C18_nolint_empty_element :
+  forall rules c, rules <> [] ->
+    (silences ([] :: rules) c = contains rules (code_str c) || contains rules az_name)
+    /\ (silences (rules ++ [[]]) c = true <-> In (code_str c) rules \/ In az_name rules).
+Proof. intros rules c H. split; [apply silences_empty_element | apply silences_empty_element_last]; exact H. Qed.
+Print Assumptions C18_nolint_empty_element.
+
+(* in terms of the directive arguments ds that apply to the statement (file ones, then its own): silenced iff
+   ds is exactly ONE directive with an empty argument, or some argument has the code / "destructive" as a word *)
+Theorem C18_nolint_silences_directives :
+  forall ds c,
+    silences (flat_map split_sp ds) c = true <->
+    ds = [[]] \/ exists d, In d ds /\ (In (code_str c) (split_sp d) \/ In az_name (split_sp d)).
+Proof. exact silences_directives. Qed.
+Print Assumptions C18_nolint_silences_directives.
+
+(* the argument that reDirective extracts after the directive name: empty unless a BLANK follows the name;
+   after blanks, the printable run *)
+Theorem C18_nolint_directive_argument :
+  forall nm rest, nm <> [] -> forallb wordc nm = true ->
+    (forall c, wordc c = false -> is_blank c = false -> dir_tail (nm ++ c :: rest) = Some (nm, []))
+    /\ dir_tail (nm ++ 32%N :: rest) = Some (nm, take_while printable (drop_while is_blank rest)).
+Proof.
+  intros nm rest Hne Hw. split.
+  - intros c Hc Hb. apply dir_tail_no_blank; assumption.
+  - apply dir_tail_blank; assumption.
+Qed.
+Print Assumptions C18_nolint_directive_argument.
+
+(* the report of one file under directives: exactly the diagnostics of the analyzer whose statement's rule list
+   does not silence them; the file error iff one is left; an ignored file has no report *)
+Theorem C18_nolint_report_exact :
+  forall nf cl,
+    (file_ignored nf = true -> analyze_nl nf cl = None)
+    /\ (forall kept err, analyze_nl nf cl = Some (kept, err) ->
+          (forall d, In d kept <->
+                     In d (analyze_file cl) /\ silences (rules_at nf cl (d_pos d)) (d_code d) = false)
+          /\ (err = true <-> kept <> [])).
+Proof. intros nf cl. split; [apply analyze_nl_ignored | apply analyze_nl_exact]. Qed.
+Print Assumptions C18_nolint_report_exact.
+
+(* additive files stay clean with any directive *)
+Theorem C18_nolint_sound_additive :
+  forall nf cl, analyze_file cl = [] -> analyze_nl nf cl = None \/ analyze_nl nf cl = Some ([], false).
+Proof. exact analyze_nl_sound. Qed.
+Print Assumptions C18_nolint_sound_additive.
+
+(* directives whose rule lists do not silence the DS codes (they name other checks) change nothing *)
+Theorem C18_nolint_other_checks_transparent :
+  forall nf cl,
+    file_ignored nf = false ->
+    (forall sc, In sc cl -> silences (pos2rules nf (sc_pos sc)) DS102 = false
+                            /\ silences (pos2rules nf (sc_pos sc)) DS103 = false) ->
+    analyze_nl nf cl = Some (analyze_file cl, match analyze_file cl with [] => false | _ => true end).
+Proof. exact analyze_nl_transparent. Qed.
+Print Assumptions C18_nolint_other_checks_transparent.
+
+(* refuted: `-- atlas:nolint<TAB>incompatible` names another check only and silences DS102 and DS103 *)
+Theorem C18_nolint_refuted_tab :
+  exists comment,
+    comment = w_tab /\ silences (rules_of [comment]) DS102 = true /\ silences (rules_of [comment]) DS103 = true
+    /\ silences (rules_of [w_plain]) DS102 = false.
+Proof. exists w_tab. destruct tab_is_bare as [_ [H2 [H3 _]]]. destruct plain_is_not as [_ H4]. repeat split; assumption. Qed.
+Print Assumptions C18_nolint_refuted_tab.
+
+(* refuted: a header comment that ends in the words atlas:nolint switches the file off (it is no directive on a statement) *)
+Theorem C18_nolint_refuted_header_mention :
+  exists line, line = w_mention /\ file_ignored (mkNL [line] []) = true
+               /\ Stmt_Directive [line ++ nl] nolint_name = [].
+Proof. exists w_mention. destruct mention_ignores_file as [H1 H2]. repeat split; assumption. Qed.
+Print Assumptions C18_nolint_refuted_header_mention.
+
+(* refuted (over-reporting): two bare directives for one statement are not the bare form *)
+Theorem C18_nolint_refuted_bare_with_other :
+  exists c1 c2, c1 = w_bare /\ c2 = w_bare /\ silences (rules_of [c1]) DS102 = true
+                /\ silences (rules_of [c1; c2]) DS102 = false.
+Proof. exists w_bare, w_bare. destruct two_bare_not_honoured as [_ [H2 H3]]. repeat split; assumption. Qed.
+Print Assumptions C18_nolint_refuted_bare_with_other.
+
 (** ** Non-vacuity examples (vm_compute on concrete files; names: t = "t", vic, tmp, new_t) *)
 Definition ex_states (stmts : list pstmt) := states_of w_r0 stmts.
 
@@ -289,3 +415,55 @@ Proof. exact hidden_now_flagged. Qed.
 Example ex_prefix_rename_fixed :
   analyze_file (changes_of w_r0 w_prefix (states_of w_r0 w_prefix)) = [mkDiag DS102 100 [n_t]].
 Proof. exact prefix_now_flagged. Qed.
+
+From Coq Require Import String.
+Open Scope list_scope.
+(* round 3 (nolint): spellings of the directive and what the rule list becomes *)
+Example ex_nolint_spellings :
+  rules_of [b "-- atlas:nolint incompatible " ++ nl] = [b "incompatible"; []]
+  /\ rules_of [b "-- atlas:nolint  incompatible  naming" ++ nl] = [b "incompatible"; []; b "naming"]
+  /\ rules_of [b "/*atlas:nolint incompatible */"] = [b "incompatible"; []]
+  /\ rules_of [b "/*atlas:nolint */"] = [[]]
+  /\ rules_of [b "/* atlas:nolint */"] = []
+  /\ rules_of [b "--atlas:nolint DS102 destructive" ++ nl] = [b "DS102"; b "destructive"]
+  /\ silences [b "DS1"] DS102 = false
+  /\ silences [b "incompatible"; []] DS102 = false
+  /\ silences [b "naming"; b "destructive"] DS103 = true.
+Proof. exact spellings. Qed.
+
+(* the pipeline with directives: `-- atlas:nolint incompatible` keeps DS102@29, the tab form and the bare form
+   silence it, a header mention drops the file from the report *)
+Example ex_nolint_lint :
+  lint_nl (fst (dir_with w_plain)) (snd (dir_with w_plain)) 1 = LintReport [(2%N, [mkDiag DS102 29 [LintNolintRefute.n_t]])] true
+  /\ lint_nl (fst (dir_with w_tab)) (snd (dir_with w_tab)) 1 = LintReport [(2%N, [])] false
+  /\ lint_nl (fst (dir_with w_bare)) (snd (dir_with w_bare)) 1 = LintReport [(2%N, [])] false
+  /\ lint_nl (fst (dir_with w_plain)) [(2%N, mkNL [w_mention] [])] 1 = LintReport [] false.
+Proof. exact lint_nl_examples. Qed.
+
+(* names lost after a tab inside the argument list; no comments = the model of rounds 1-2 *)
+Example ex_nolint_inner_tab : rules_of [w_inner_tab] = [b "incompatible"] /\ silences (rules_of [w_inner_tab]) DS102 = false.
+Proof. exact inner_tab_drops_names. Qed.
+Example ex_nolint_no_comments : forall cl,
+  analyze_nl no_comments cl = Some (analyze_file cl, match analyze_file cl with [] => false | _ => true end).
+Proof. exact analyze_nl_no_comments. Qed.
+
+(* C18_nolint_sound_additive / C18_nolint_report_exact: an additive statement stays clean under a directive naming
+   other checks; a DROP TABLE next to it keeps its DS102 unless its own rule list silences it *)
+Example ex_nolint_additive :
+  let T := mkTab LintNolintRefute.n_t cols_t [] in
+  let U := mkTab [117]%N cols_t [] in
+  analyze_nl (mkNL [] [(0%N, [w_plain])]) [mkSC 0 [AddTableC T]] = Some ([], false)
+  /\ analyze_nl (mkNL [] [(0%N, [w_bare])]) [mkSC 0 [AddTableC T]; mkSC 40 [DropTableC U]]
+     = Some ([mkDiag DS102 40 [[117]%N]], true)
+  /\ analyze_nl (mkNL [] [(40%N, [b "-- atlas:nolint DS102" ++ nl])]) [mkSC 0 [AddTableC T]; mkSC 40 [DropTableC U]]
+     = Some ([], false)
+  /\ analyze_nl (mkNL [b "-- atlas:nolint"] []) [mkSC 0 [AddTableC T]; mkSC 40 [DropTableC U]] = None.
+Proof. vm_compute. repeat split; reflexivity. Qed.
+
+(* C18_nolint_directive_argument on other separators: colon, no-break space => the bare directive; comma => one element *)
+Example ex_nolint_nonblank :
+  rules_of [b "-- atlas:nolint: incompatible" ++ nl] = [[]]
+  /\ rules_of [b "-- atlas:nolint" ++ [194; 160]%N ++ b "incompatible" ++ nl] = [[]]
+  /\ rules_of [b "-- atlas:nolint incompatible,DS102" ++ nl] = [b "incompatible,DS102"]
+  /\ silences (rules_of [b "-- atlas:nolint incompatible,DS102" ++ nl]) DS102 = false.
+Proof. exact nonblank_is_bare. Qed.
